@@ -7,6 +7,8 @@ Open Scope N_scope.
 (* Every sequence of grammar tokens, rendered with any legal separators and comments between them,
    is split exactly along the grammar: types, Go-unquoted string values, and the row and column of
    each token's first character; an EOF token at the final position closes the list. *)
+From Verif Require Import Facts.C11Facts.
+
 Theorem C11_roundtrip : forall items,
   items_ok items [] = true -> replace_crlf (render items) = render items ->
   tokenize (render items) = LexOk (expected items (1, 1) ++ [eof_at (advance (render items) (1, 1))]).
@@ -31,10 +33,7 @@ Theorem C11_unterminated : forall items raw cs,
   items_ok items tail = true -> forallb (schar_wf raw) cs = true ->
   replace_crlf (render items ++ tail) = render items ++ tail ->
   tokenize (render items ++ tail) = LexErr.
-Proof.
-  intros items raw cs tail Hok Hwf Hcr.
-  apply tokenize_items_err; [exact Hok|exact Hcr|discriminate|apply lex_step_unterminated; exact Hwf].
-Qed.
+Proof. exact C11_unterminated_proof. Qed.
 Print Assumptions C11_unterminated.
 
 (* A character with which no token starts is an error. *)
@@ -42,10 +41,7 @@ Theorem C11_unknown_character : forall items c r,
   unknown_byte c = true -> items_ok items (c :: r) = true ->
   replace_crlf (render items ++ c :: r) = render items ++ c :: r ->
   tokenize (render items ++ c :: r) = LexErr.
-Proof.
-  intros items c r Hu Hok Hcr.
-  apply tokenize_items_err; [exact Hok|exact Hcr|discriminate|apply lex_step_unknown; exact Hu].
-Qed.
+Proof. exact C11_unknown_character_proof. Qed.
 Print Assumptions C11_unknown_character.
 
 (* The lexer terminates on every input (the model's fuel is never exhausted). *)
